@@ -2,7 +2,7 @@
 use crate::util::*;
 use solana_address::Address;
 use solana_program_option::COption;
-use spl_pod::bytemuck::{pod_bytes_of, pod_from_bytes, pod_maybe_from_bytes, pod_slice_from_bytes, pod_slice_to_bytes};
+use spl_pod::bytemuck::{pod_bytes_of, pod_from_bytes, pod_from_bytes_mut, pod_maybe_from_bytes, pod_slice_from_bytes, pod_slice_from_bytes_mut, pod_slice_to_bytes};
 use spl_pod::option::{Nullable, PodOption};
 use spl_pod::primitives::*;
 
@@ -45,6 +45,33 @@ macro_rules! cast_case {
             Ok(p) => {
                 let alias = (p as *const $P as *const u8) == $b.as_ptr();
                 (format!("ok {}", <$I>::from(*p)), alias)
+            }
+            Err(_) => ("err".to_string(), true),
+        }
+    }};
+}
+macro_rules! cast_mut_case {
+    ($P:ty, $I:ty, $b:expr) => {{
+        let mut copy: Vec<u8> = $b.to_vec();
+        let base = copy.as_ptr();
+        match pod_from_bytes_mut::<$P>(&mut copy[..]) {
+            Ok(p) => {
+                let alias = (p as *const $P as *const u8) == base;
+                (format!("ok {}", <$I>::from(*p)), alias)
+            }
+            Err(_) => ("err".to_string(), true),
+        }
+    }};
+}
+macro_rules! slice_mut_case {
+    ($P:ty, $I:ty, $b:expr) => {{
+        let mut copy: Vec<u8> = $b.to_vec();
+        let base = copy.as_ptr();
+        match pod_slice_from_bytes_mut::<$P>(&mut copy[..]) {
+            Ok(s) => {
+                let alias = (s.as_ptr() as *const u8) == base;
+                let vals: Vec<String> = s.iter().map(|p| <$I>::from(*p).to_string()).collect();
+                (format!("ok {} {}", s.len(), if vals.is_empty() { "-".to_string() } else { vals.join(",") }), alias)
             }
             Err(_) => ("err".to_string(), true),
         }
@@ -127,9 +154,22 @@ fn run_c13(t: &[&str], out: &mut RunOut, line: &str) {
                 "bool" => match pod_from_bytes::<PodBool>(&b) { Ok(p) => (format!("ok {}", bool::from(*p) as u8), true), Err(_) => ("err".into(), true) },
                 _ => panic!("type"),
             };
+            // the mutable twin must behave identically (same length rule, same value, aliasing)
+            let (sm, alias_m) = match t[1] {
+                "u16" => cast_mut_case!(PodU16, u16, &b[..]),
+                "i16" => cast_mut_case!(PodI16, i16, &b[..]),
+                "u32" => cast_mut_case!(PodU32, u32, &b[..]),
+                "u64" => cast_mut_case!(PodU64, u64, &b[..]),
+                "i64" => cast_mut_case!(PodI64, i64, &b[..]),
+                "u128" => cast_mut_case!(PodU128, u128, &b[..]),
+                "bool" => { let mut c = b.clone(); match pod_from_bytes_mut::<PodBool>(&mut c) { Ok(p) => (format!("ok {}", bool::from(*p) as u8), true), Err(_) => ("err".into(), true) } },
+                _ => panic!("type"),
+            };
             let mut err = None;
             if s.starts_with("ok") != (b.len() == width(t[1])) { err = Some("cast succeeds iff the length matches: violated".to_string()); }
-            if !alias { err = Some("cast does not alias the input bytes".into()); }
+            if sm.starts_with("ok") != (b.len() == width(t[1])) { err = Some("mutable cast succeeds iff the length matches: violated".to_string()); }
+            if !alias || !alias_m { err = Some("cast does not alias the input bytes".into()); }
+            let s = if sm == s { s } else { format!("{s} mut={sm}") };
             // pod_maybe_from_bytes: None on empty, else same as pod_from_bytes
             if t[1] == "u64" {
                 let m = pod_maybe_from_bytes::<PodU64>(&b);
@@ -151,9 +191,20 @@ fn run_c13(t: &[&str], out: &mut RunOut, line: &str) {
                 "u128" => slice_case!(PodU128, u128, &b[..]),
                 _ => panic!("type"),
             };
+            let (sm, alias_m) = match t[1] {
+                "u16" => slice_mut_case!(PodU16, u16, &b[..]),
+                "i16" => slice_mut_case!(PodI16, i16, &b[..]),
+                "u32" => slice_mut_case!(PodU32, u32, &b[..]),
+                "u64" => slice_mut_case!(PodU64, u64, &b[..]),
+                "i64" => slice_mut_case!(PodI64, i64, &b[..]),
+                "u128" => slice_mut_case!(PodU128, u128, &b[..]),
+                _ => panic!("type"),
+            };
             let mut err = None;
             if s.starts_with("ok") != (b.len() % width(t[1]) == 0) { err = Some("slice cast succeeds iff the length is a whole multiple: violated".to_string()); }
-            if !alias { err = Some("slice cast does not alias the input bytes".into()); }
+            if sm.starts_with("ok") != (b.len() % width(t[1]) == 0) { err = Some("mutable slice cast succeeds iff the length is a whole multiple: violated".to_string()); }
+            if !alias || !alias_m { err = Some("slice cast does not alias the input bytes".into()); }
+            let s = if sm == s { s } else { format!("{s} mut={sm}") };
             nontrivial = !b.is_empty();
             out.stats.bump(&format!("slice:{}", if s.starts_with("ok") { "ok" } else { "err" }));
             (s, err)
@@ -249,10 +300,17 @@ fn run_c14(t: &[&str], out: &mut RunOut, line: &str) {
             let sj = serde_json::to_string(&o).unwrap();
             let de = serde_json::from_str::<PodOption<Address>>(&sj);
             if de.is_err() != reject { err = Some("serde deserialiser accepts some(none-value) or rejects a valid option".into()); }
+            // the same through a binary (not human-readable) serde format: bincode's explicit option tag
+            let bo = bincode::serialize(&o).unwrap();
+            let bde = bincode::deserialize::<PodOption<Address>>(&bo);
+            if bde.is_err() != reject { err = Some("binary serde deserialiser accepts some(none-value) or rejects a valid option".into()); }
+            if let Ok(p) = &bde { if p.get() != o { err = Some("binary serde round trip is not the identity".into()); } }
+            if bincode::serialize(&po).unwrap() != bincode::serialize(&got).unwrap() { err = Some("binary serde encoding differs from Option's".into()); }
             if PodOption::<Address>::default().get().is_some() { err = Some("default is not none".into()); }
             out.stats.bump(&format!("optaddr:{}:{}", t[1], if is_none_val { "noneval" } else { "val" }));
-            (format!("get={} try={} mem={} json_null={}", got.map_or("none".to_string(), |g| hex(g.as_ref())),
-                match r1 { Ok(p) => format!("ok:{}", hex(bytemuck::bytes_of(&p))), Err(_) => "err".into() }, hex(&mem), (json == "null") as u8), err)
+            (format!("get={} try={} mem={} json_null={} de={} bin={}", got.map_or("none".to_string(), |g| hex(g.as_ref())),
+                match r1 { Ok(p) => format!("ok:{}", hex(bytemuck::bytes_of(&p))), Err(_) => "err".into() }, hex(&mem), (json == "null") as u8,
+                if de.is_ok() { "ok" } else { "err" }, if bde.is_ok() { "ok" } else { "err" }), err)
         }
         "optu64" => {
             let n: u64 = t[2].parse().unwrap();
@@ -273,9 +331,13 @@ fn run_c14(t: &[&str], out: &mut RunOut, line: &str) {
             if (n == 0) != (json == "null") { err = Some("serde none <-> null violated".into()); }
             let de = serde_json::from_str::<PodOption<NzU64>>(&serde_json::to_string(&o).unwrap());
             if de.is_err() != reject { err = Some("serde deserialiser accepts some(none-value) or rejects a valid option".into()); }
+            let bde = bincode::deserialize::<PodOption<NzU64>>(&bincode::serialize(&o).unwrap());
+            if bde.is_err() != reject { err = Some("binary serde deserialiser accepts some(none-value) or rejects a valid option".into()); }
+            if let Ok(p) = &bde { if p.get() != o { err = Some("binary serde round trip is not the identity".into()); } }
             out.stats.bump(&format!("optu64:{}:{}", t[1], if n == 0 { "noneval" } else { "val" }));
-            (format!("get={} try={} mem={} json_null={}", got.map_or("none".to_string(), |g| hex(&g.0.to_le_bytes())),
-                match r1 { Ok(p) => format!("ok:{}", hex(&borsh::to_vec(&p).unwrap())), Err(_) => "err".into() }, hex(&borsh_b), (json == "null") as u8), err)
+            (format!("get={} try={} mem={} json_null={} de={} bin={}", got.map_or("none".to_string(), |g| hex(&g.0.to_le_bytes())),
+                match r1 { Ok(p) => format!("ok:{}", hex(&borsh::to_vec(&p).unwrap())), Err(_) => "err".into() }, hex(&borsh_b), (json == "null") as u8,
+                if de.is_ok() { "ok" } else { "err" }, if bde.is_ok() { "ok" } else { "err" }), err)
         }
         other => panic!("unknown op {other}"),
     };
